@@ -39,6 +39,27 @@ def perform(rec, name, O, doc, what, call, fn, structure_only=True, events=()):
         rec.violation(f"{what}-content", "the sequence of text and leaf nodes changed", call)
 
 
+def lift_remainder_invalid(r, tgt):
+    """ghost event of the known finding (precise form): the lift crosses >= 2 levels, at some inner
+    level content of the inner node stays behind after the range, and the enclosing node's remainder
+    -- the re-wrapped inner remainder followed by the later siblings -- is NOT valid content for the
+    enclosing node's type (lift_target's can_cut test looked at the later siblings only)"""
+    f, t = r.from_, r.to
+    for L in range(tgt + 1, r.depth):
+        inner = f.node(L + 1)
+        inner_after = t.index_after(L + 1) if L + 1 < r.depth else r.end_index
+        if inner_after >= inner.child_count:
+            continue  # nothing of the inner node stays behind
+        outer = f.node(L)
+        m = outer.type.content_match.match_type(inner.type)
+        if m is None:
+            return True
+        m = m.match_fragment(outer.content, t.index_after(L))
+        if m is None or not m.valid_end:
+            return True
+    return False
+
+
 def run(tier, seed, findings):
     from prosemirror.transform import structure
 
@@ -144,7 +165,7 @@ def run(tier, seed, findings):
                     # ghost event for the call-site keyed finding: the lift crosses >= 2 levels
                     # while the range leaves later siblings behind in its own parent, so the
                     # remainder has to be re-wrapped after the lifted content
-                    ev = ["lift-leaves-later-siblings-across-levels"] if (r.depth - tgt >= 2 and r.end_index < r.parent.child_count) else []
+                    ev = ["lift-leaves-later-siblings-across-levels"] if lift_remainder_invalid(r, tgt) else []
                     perform(rec, name, O, doc, "lift", call, lambda tr: tr.lift(r, tgt), events=ev)
                 for tn in wrap_types:
                     call = dict(fn="find_wrapping", schema=name, doc=dj, f=f, t=t, type=tn)
